@@ -99,7 +99,20 @@ func c06NoEffectPath(r *an.Run, m *runModel) {
 					// the echo lives in a private helper that does nothing else
 					h := an.StaticCallee(hc)
 					r.Pass(key+"|bytes", c.Pos(), "--print-only echoes exactly the bytes read from the file (handed to %s, which writes that parameter to cmd.Stdout)", short(h))
-					r.Check(!an.ReachUnder(h.Blocks[0], noPrint, nil)[w.Block()], key+"|only-print", w.Pos(), "the echo happens only under --print-only")
+					// inside the helper the flag may arrive as a parameter (emitUnchanged(opts.Print, content)): a
+					// parameter has, under the hypothesis, the value of the argument it is bound to
+					args := an.CallArgs(hc)
+					inHelper := an.Assume(func(v ssa.Value) (bool, bool) {
+						if prm, isParam := v.(*ssa.Parameter); isParam && prm.Parent() == h {
+							for i, q := range h.Params {
+								if q == prm && i < len(args) {
+									return an.EvalUnder(args[i], nil, noPrint, 0)
+								}
+							}
+						}
+						return noPrint(v)
+					})
+					r.Check(!an.ReachUnder(h.Blocks[0], inHelper, nil)[w.Block()], key+"|only-print", w.Pos(), "the echo happens only under --print-only")
 					continue
 				}
 			}
@@ -136,7 +149,19 @@ func c06NoEffectPath(r *an.Run, m *runModel) {
 		if echoInner != nil {
 			// inside the helper: with Print set every way to a return passes the write
 			h := echoInner.Parent()
-			in := an.ReachUnder(h.Blocks[0], m.hyp(map[string]bool{"Print": true, "Diff": false}, nil), func(b *ssa.BasicBlock, i int) bool { return b == echoInner.Block() })
+			outer := m.hyp(map[string]bool{"Print": true, "Diff": false}, nil)
+			hargs := an.CallArgs(echo)
+			in := an.ReachUnder(h.Blocks[0], an.Assume(func(v ssa.Value) (bool, bool) {
+				// a parameter of the helper has the value of the argument it is bound to
+				if prm, isParam := v.(*ssa.Parameter); isParam && prm.Parent() == h {
+					for i, q := range h.Params {
+						if q == prm && i < len(hargs) {
+							return an.EvalUnder(hargs[i], nil, outer, 0)
+						}
+					}
+				}
+				return outer(v)
+			}), func(b *ssa.BasicBlock, i int) bool { return b == echoInner.Block() })
 			for _, ret := range an.Returns(h) {
 				if in[ret.Block()] && ret.Block() != echoInner.Block() {
 					reach[hdr] = true
